@@ -38,9 +38,29 @@ CLAIMED = {
         design='DESIGN.md §6 C18',
         technique='Lean 4 proof (invariant `fresh d = some d` by induction over operation histories, 13 record state machines) + bit-exact stateful correspondence + twin-object oracle'),
     "C20": dict(
-        text=('Kernel-checked theorems over R for valid parameters: the scalar RBF and rational-quadratic kernels are symmetric, equal the output variance at zero distance, are positive, never exceed the variance and are non-increasing in the distance; constructors accept exactly positive parameters; the matrix form (all four argument kinds, any r x c layout) has one row per first-argument point and one column per second-argument point and its (i,j) entry is the scalar form at (x_i, y_j) - for every scalar type in which powi a 2 = a*a, so also at Float where the oracle checks it bit for bit; Gram matrices are symmetric with diagonal = variance; and every Gram matrix is positive semi-definite (Mathlib Matrix.PosSemidef): RBF through the power-series feature map of exp(xy/l^2), rational quadratic as a Gamma scale mixture of RBF kernels. Not proved: rounding of the scalar form and PSD of the rounded Gram matrix (searched: eigenvalue bound with exact LDL^T certificate for small n). Tied bit for bit to the Rust code (scalar pairs in +-1e3, 1..60 points as Vector or Matrix, owned or borrowed, parameters in (1e-2, 1e2)).'
-              " ROUNDING (Props/Rounding5): the computed scalar RBF / rational-quadratic values are within an explicit two-sided multiplicative bound of the exact formula and positive; consecutive-call sequences (permuted, duplicated, mutated point sets) are part of the correspondence."
-              " Matrix forms (Props/Rounding6): every Gram entry equals the scalar form at the rounded type, obeys the two-sided bound, is positive and, under the explicit hypothesis that libm exp is at most 1 on non-positive arguments, at most var(1+u)."),
+        text=("Kernel-checked theorems OVER THE REALS for valid parameters (Props/C20, Props/C20Psd): the constructors accept exactly positive parameters; the scalar "
+              "RBF and rational-quadratic kernels are symmetric, equal the output variance at zero distance, are positive, never exceed the variance and are "
+              "non-increasing in the distance; the matrix form (as repaired by F50; all four argument kinds, any r x c layout) never panics on non-empty point sets, "
+              "has one row per first-argument point and one column per second-argument point and its (i,j) entry is the scalar form at (x_i, y_j) - proved for every "
+              "scalar type in which powi(a,2) = a*a (hypothesis hp); Gram matrices are symmetric (for every scalar type with hp and hsq: (a-b)(a-b) = (b-a)(b-a)) "
+              "with diagonal = variance; and every Gram matrix is positive semi-definite (Mathlib Matrix.PosSemidef): RBF through the power-series feature map of "
+              "exp(xy/l^2), rational quadratic as a Gamma scale mixture of RBF kernels. Every implication has an instantiating example (matrix-form, Gram and PSD "
+              "theorems included). UNDERFLOW PROVISO: positive is a statement over the reals; at f64 the value underflows to exactly 0 inside the quantified domain "
+              "(RBF var 1, l 0.01: k(1000,-1000) = 0.0; RQ var 1, alpha 100, l 0.01: k(1000,-1000) = 0.0; both are corpus witness lines), so the oracle demands 0 <= "
+              "k <= var, and k > 0 only where the exact value is at least 1e-290. ROUNDING, IN THE STANDARD MODEL ONLY (Props/Rounding5, Props/Rounding6: fl(a op b) "
+              "= (a op b)(1+d) with |d| <= u, libm exp / pow of relative error at most u_f, no underflow or overflow): the computed scalar values and every "
+              "matrix-form entry lie within an explicit two-sided multiplicative bound of the exact formula (RBF: c K <= computed <= K/c with c = e^(-gamma_9 "
+              "A)(1-u_f)(1-u), A = (x-y)^2/(2 l^2); RQ: c = ((1-u)^11)^alpha (1-u_f)(1-u)), are positive in that model - that is, absent underflow, roughly |x - y| "
+              "below 38 l for RBF; false of f64 beyond it - and, under the explicit extra hypothesis that libm exp is at most 1 on non-positive arguments, at most "
+              "var(1+u); hp holds in that model when rounding is idempotent, hsq is not proved for any float model. NOT PROVED at f64 and decided per run instead: "
+              "that IEEE doubles and glibc satisfy the standard model, hp and hsq for doubles (the oracle checks matrix entry = scalar forward token for token and "
+              "K_ij = K_ji bit for bit), k <= var, k(x,x) = var and monotonicity (exact checks, monotone within 4 ulp), accuracy against mpmath at 120 bits within "
+              "400 eps (1 + |exponent|) resp. 400 eps (1 + alpha), and positive semi-definiteness of the rounded Gram matrix (smallest eigenvalue >= -2.5 n max "
+              "tolerance with a rigorous eigvalsh margin and an exact rational LDL^T certificate for n <= 10). SOURCE TIE: only the two scalar forward bodies are "
+              "regenerated from kernels.rs on every run and proved equal to the model; constructors and matrix forms are hand-modelled on the C04 / C12 / C15 models "
+              "and tied by bit-exact differential execution: scalar pairs in +-1e3, 1..60 points as Vector or Matrix, owned or borrowed, parameters in (1e-2, 1e2) "
+              "log-uniform mixed with exact special values (alpha 1/2, 1/3, ...), invalid parameters (panic class), and a call-sequence stratum of consecutive calls "
+              "on permuted, swapped, duplicated, one-ulp-moved, exchanged and in-place-mutated point sets with RBF and RQ interleaved."),
         design='DESIGN.md §6 C20',
         technique='Lean 4 proof (real analysis for monotonicity, power-series / Gamma-mixture PSD argument, table lemmas over the C04/C12/C15 models) + bit-exact correspondence'),
     "C01": dict(
@@ -146,23 +166,50 @@ CLAIMED = {
         design="DESIGN.md §6 C08",
         technique="Lean 4 proof (loop invariants by induction over the data list, field_simp/ring) + bit-exact correspondence + exact-rational oracle"),
     "C12": dict(
-        text=("Kernel-checked theorems (all element types, all operators, all shapes >= 1x1): a value is returned iff the shapes are "
-              "NumPy-compatible, it has the element-wise maximum shape, is well formed, and entry (i,j) is left[i|0][j|0] op right[i|0][j|0] "
-              "with operand order preserved in every leaf of the classifier; Vector operands are single rows. The model is tied to the "
-              "Rust code on every run by executing all 1296 shape pairs x operators x operand kinds x ownership forms through both and "
-              "comparing bit for bit; an independent NumPy-rule oracle supplies the failing input."
-              " SOURCE TIE: calc_broadcast_shape is regenerated from broadcast.rs on every run; two unfoldings of its recursion equal the model classifier and the model is a fixed point of the source equation."),
+        text=("Kernel-checked theorems about the model of broadcast_op (all element types, one abstract operator, all shapes >= 1x1): a value is returned iff the "
+              "shapes are NumPy-compatible, it has the element-wise maximum shape, is well formed, and entry (i,j) is left[i|0][j|0] op right[i|0][j|0] with operand "
+              "order preserved in every leaf of the classifier; a Vector operand is modelled as a single row. SOURCE TIE: the classifier calc_broadcast_shape is "
+              "regenerated from broadcast.rs on every run; two unfoldings of its recursion equal the model classifier and the model is a fixed point of the source "
+              "equation. The leaves of the macro, the 48 operator impls (4 operators x operand kinds x 4 ownership forms) and the Vector-to-row promotion are "
+              "hand-modelled and tied at run time only: on every run all 1296 shape pairs with rows, cols in 1..6 are executed through the Rust code and the model "
+              "and compared bit for bit with non-commuting data - Matrix op Matrix with each operator once per pair in the quick tier (ownership forms rotating) and "
+              "all 16 (operator, form) combinations in the thorough tier, Matrix op Vector and Vector op Matrix with every operator for every eligible pair - plus a "
+              "special-value stratum over every classifier leaf (NaN, infinities, signed zeros, subnormals in the data and as the 1x1 operand), size-boundary shapes "
+              "and random shapes up to 40x40; an independent NumPy-rule oracle supplies the failing input. Zero-dimension operands are outside the theorems and the "
+              "generator."),
         design="DESIGN.md §6 C12",
         technique="Lean 4 proof (case analysis over the classifier tree) + bit-exact model/implementation correspondence"),
     "C15": dict(
-        text=("Kernel-checked theorems: the matrix invariant (element count = rows x cols) is preserved by each of the 19 state-changing structural operations and, by "
-              "induction, by every program of them (also for sessions that catch panics); impossible shapes are rejected exactly (iff characterisations of reshape / "
-              "reshape_mut / new incl. the inferred -1 dimension); every operation refines the plain row-major reference (transpose, layout conversion, hcat, vcat, "
-              "repeats, row/column extraction and maps, indexing, reshape keeps the flat data) for all shapes; diag, eye, diag_matrix, toeplitz, vandermonde, design, "
-              "linspace (n points, first a, last b, constant step) and arange (ceil count, half-open) patterns; rotations are orthogonal with determinant 1 and cw = ccw^T in "
-              "any commutative ring with c^2+s^2=1; predicates equal their definitions and close_to never equates values of opposite sign; ONE SIMULATION THEOREM over whole programs (Props/C15Sim): every program of the 19 operations - panics included, also in sessions that catch them - commutes with an independent list-of-rows reference model (the Vec<Vec<f64>> model of the quantifier), for programs that never operate on a 0-row matrix (side condition shown necessary). Tied bit for bit to the Rust "
-              "code by stateful random programs (1..40 ops, 1..8 rows/cols) and constructor sweeps; independent list-of-rows oracle."
-              " Also inside the model, theorems and tie: shape/size accessors, with_shape / with_capacity / Vector constructors, element writes through data_mut, row and column sums (= sum_j a_ij, sum_i a_ij, both adding up to the total) and Vector::sort (stable sorted permutation; panics exactly when a NaN meets a comparison). SOURCE TIE: linspace, diag, vandermonde, transpose, row_to_col_major, col_to_row_major, diag_matrix, arange, toeplitz, eye and the rotation matrices are regenerated from the Rust text on every run and proved equal to the hand model."),
+        text=("Kernel-checked theorems about the executable model of matrix.rs / vec.rs / utils.rs / rotations.rs: the matrix invariant (element count = rows x cols) "
+              "is preserved by each of the 19 state-changing structural operations and, by induction, by every program of them (also for sessions that catch panics), "
+              "and likewise for programs that add the six operations of the coverage extension (in-place sort and element writes through data_mut, with_shape, "
+              "with_capacity, row / column sums as a new matrix); impossible shapes are rejected exactly (iff characterisations of reshape / reshape_mut / new incl. "
+              "the inferred -1 dimension); every operation refines the plain row-major reference (transpose, layout conversion, hcat, vcat, repeats, row/column "
+              "extraction and maps, indexing, reshape keeps the flat data) for all shapes with at least one row; diag (any shape), eye, diag_matrix, toeplitz, "
+              "vandermonde (any monoid, n <= 2^31), design, linspace (field of characteristic 0, n >= 2: n points, first a, last b, constant step; n = 1 gives the "
+              "start point; n = 0 panics) and arange (ordered field, step > 0 only: ceil count, all points < stop, next >= stop); rotations are orthogonal with "
+              "determinant 1 and cw = ccw^T (through the model transposition) in any commutative ring with c^2+s^2=1 (instances (0,1) over Z and (3/5,4/5) over Q); "
+              "the predicates is_square (Matrix and slice), is_symmetric, is_upper/lower_triangular (all shapes, tall included), is_design, is_matrix and the "
+              "comparisons close_to and PartialEq (Vector and Matrix level) equal their definitions. OPPOSITE SIGNS, adopted reading: close_to (Vector and Matrix) "
+              "never equates values of strictly opposite sign, at any tolerance and magnitude (proved); the absolute-epsilon PartialEq DOES equate opposite-signed "
+              "values when both lie within f64::EPSILON of zero (1e-17 == -1e-17 is true by its definition |a-b| <= EPSILON; kernel-checked witness) - proved for "
+              "PartialEq are its definition and that this is the only case. ONE SIMULATION THEOREM over whole programs (Props/C15Sim): every program of the 19 "
+              "operations - panics included, also in sessions that catch them - commutes with an independent list-of-rows reference model (the Vec<Vec<f64>> model of "
+              "the quantifier), for programs that never operate on a 0-row matrix (side condition shown necessary). Coverage extension: shape/size accessors, "
+              "with_shape / Vector constructors, element writes through data_mut, row and column sums (= sum_j a_ij, sum_i a_ij, both adding up to the total, any "
+              "commutative additive monoid) and Vector::sort (= Mathlib insertionSort: stable sorted permutation for a total preorder; panics exactly when the length "
+              "is >= 2 and a NaN is present); Matrix::with_capacity returns only for an empty shape and panics otherwise (proved as is). The hand models that C11 and "
+              "C13 carry of is_upper_triangular, slice is_square and toeplitz are proved equal to the C15 ones. NOT PROVED, decided per run by the oracle against "
+              "exact rational references: IEEE rounding of linspace / arange / vandermonde / sum_rows / sum_cols, arange with non-positive step, the libm sin/cos "
+              "residual of the rotations (<= 400 eps, every entry within 4 ulp of sin/cos at every magnitude), the f32 square root of slice is_square (modelled by "
+              "Nat.sqrt, len < 2^24). TIE: bit for bit to the Rust code by stateful random programs (1..40 operations, loaded 1..8 rows/cols, grown up to 33x40, "
+              "occasional zero dimensions where only the invariant is judged), constructor sweeps and directed strata (block-size boundaries, nearly symmetric "
+              "squares, near-grid arange stops, tolerance boundaries +-1 ulp, opposite-sign pairs and scalar magnitudes over the whole exponent range); independent "
+              "list-of-rows oracle. SOURCE TIE (translator, regenerated from the Rust text on every run and proved equal to the hand model): only linspace, arange, "
+              "slice diag, vandermonde, transpose, row_to_col_major, col_to_row_major, diag_matrix, toeplitz, eye and the rotation matrices; every Matrix / Vector "
+              "method of the mechanism list (new, reshape, reshape_mut, t, t_mut, hcat, vcat, hrepeat, vrepeat, apply_along_row/col, row/column extraction, indexing, "
+              "Matrix::diag, is_symmetric, the triangular predicates, close_to, PartialEq, design, is_design, sort, sums, constructors) is hand-modelled and tied at "
+              "run time only (listed in TRUSTED)."),
         design="DESIGN.md §6 C15",
         technique="Lean 4 proof (invariant by induction over operation lists, row-view refinement, ring/linear_combination) + bit-exact stateful correspondence"),
 }
